@@ -872,7 +872,41 @@ pub fn generate_c07(rng: &mut Rng) -> Scenario {
         // a file with a syntax error makes parsing visible: it must NOT be diagnosed when an input is unreadable
         world.entries.push(Entry { path: "zz_syntax.slice".into(), kind: EntryKind::File { content: "module Zz\nstruct { oops }\n".into(), hex: None }, mode: None });
         argv.insert(0, "zz_syntax.slice".into());
-        match rng.below(6) {
+        match rng.below(10) {
+            6 => {
+                // a dangling link named as a source
+                world.entries.push(Entry { path: "gone.slice".into(), kind: EntryKind::Symlink { target: "nowhere.slice".into() }, mode: None });
+                argv.insert(rng.usize_below(2), "gone.slice".into());
+                unreadable.push("gone.slice".to_owned());
+            }
+            7 => {
+                // a reference path that is missing or a dangling link
+                let name = if rng.chance(1, 2) {
+                    world.entries.push(Entry { path: "gone-refs".into(), kind: EntryKind::Symlink { target: "nowhere".into() }, mode: None });
+                    "gone-refs"
+                } else {
+                    "no-such-refs"
+                };
+                argv.push("-R".into());
+                argv.push(name.into());
+                unreadable.push(name.to_owned());
+            }
+            8 => {
+                // a reference directory that cannot be listed
+                world.entries.push(Entry { path: "sealed".into(), kind: EntryKind::Dir, mode: Some(0o000) });
+                argv.push("-R".into());
+                argv.push("sealed".into());
+                unreadable.push("sealed".to_owned());
+            }
+            9 => {
+                // an unreadable file found inside a reference directory
+                world.entries.push(Entry { path: "refs".into(), kind: EntryKind::Dir, mode: None });
+                world.entries.push(Entry { path: "refs/ok.slice".into(), kind: EntryKind::File { content: "module RefsOk\nstruct R {}\n".into(), hex: None }, mode: None });
+                world.entries.push(Entry { path: "refs/locked.slice".into(), kind: EntryKind::File { content: "module RefsLocked\nstruct L {}\n".into(), hex: None }, mode: Some(0o000) });
+                argv.push("-R".into());
+                argv.push("refs".into());
+                unreadable.push("refs/locked.slice".to_owned());
+            }
             0 => {
                 world.entries.push(Entry { path: "locked.slice".into(), kind: EntryKind::File { content: "module Locked\nstruct L {}\n".into(), hex: None }, mode: Some(0o000) });
                 argv.insert(rng.usize_below(2), "locked.slice".into());
